@@ -643,6 +643,7 @@ def backends(name, seed, heuristic=None, resolve=False):
             fails.append(('C11', 'same_value', 'cvxpy back-end %r, MOSEK back-end %r' % (tc, tm)))
             return info, fails
         if tc is None:
+            fails.append(('C11', 'unexpected_none', 'a bounded feasible model returned None through both back-ends'))
             return info, fails
         if [k for k, _ in wc.sent] != [k for k, _ in wm.sent]:
             fails.append(('C11', 'same_constraint_list', 'the two back-ends do not receive the same list of constraints'))
